@@ -2,6 +2,7 @@ import PpciVerif.Model.Proto
 import PpciVerif.Model.Shape
 import PpciVerif.Model.DataSeg
 import PpciVerif.Model.FuncTable
+import PpciVerif.Spec.IRArith
 /-! Line-protocol driver for C23.
 
   cfg      ::= e<entry> (r | j<t> | c<y>:<n>)*            one term per block, in block order
@@ -16,6 +17,8 @@ import PpciVerif.Model.FuncTable
   t <cfg> | <skeleton> | <bits> K F → ok cfg=<blocks>/<done> wasm=<kind>:<blocks>
   lay <base> <amount>:<len> …      → ok <addr> … end=<addr>           (Model.DataSeg.layout)
   img <base> <amount>:<hex> … @ <addr> <n>  → ok <hex>                (initial memory image)
+  ar <ty> <op> <a> <b>              → ok <v> | ok undef                (Spec.IRArith.binop; op ∈ + - * / % << >> & | ^)
+  ac <to-ty> <v>                    → ok <v>                           (Spec.IRArith.cast)
   ft <ids> / <ids> / …              → ok table=[…] slots=[…]          (Model.FuncTable.compileModule; `/` separates functions)
 -/
 open Proto Model.Shape
@@ -291,6 +294,17 @@ def step (line : String) : String :=
         s!"ok cfg={showTrace (cfgTrace g o K)} wasm={showOut (exec g o F w St.init)}"
       | _, _, _, _, _ => "bad-op"
     | _ => "bad-op"
+  | ["ar", t, o, a, b] =>
+    match Spec.IRArith.Ty.all.find? (fun ty => ty.name == t), Spec.IRArith.Op.all.find? (fun op => op.symbol == o), a.toInt?, b.toInt? with
+    | some ty, some op, some x, some y =>
+      match Spec.IRArith.binop ty op x y with
+      | some v => s!"ok {v}"
+      | none => "ok undef"
+    | _, _, _, _ => "bad-op"
+  | ["ac", t, a] =>
+    match Spec.IRArith.Ty.all.find? (fun ty => ty.name == t), a.toInt? with
+    | some ty, some x => s!"ok {Spec.IRArith.cast ty x}"
+    | _, _ => "bad-op"
   | "ft" :: rest =>
     let groups := (splitBar (rest.map (fun w => if w == "/" then "|" else w)))
     match groups.mapM (fun g => g.mapM (fun (w : String) => w.toNat?)) with
